@@ -87,14 +87,7 @@ print('cache size', n)
 sys.exit(0 if n <= 20 else 1)
 '''
 
-_plain = None
-
-
-def plain():
-    global _plain
-    if _plain is None:
-        _plain = core.PlainWorker()
-    return _plain
+plain = hc.plain
 
 
 class _F(object):
